@@ -330,7 +330,7 @@ impl Kernel {
 
     /// Whether a thread with this name exists and has not finished.
     pub fn thread_alive(&self, name: &str) -> bool {
-        let st = self.lock();
+        let st = self.lock_synced();
         st.threads.iter().any(|t| t.name == name && t.status != Status::Finished)
     }
 
@@ -709,6 +709,16 @@ impl Kernel {
     pub fn point_here(&self, site: &str) {
         if let Some(me) = my_tid() {
             self.yield_with(me, site, Status::Runnable);
+        }
+    }
+
+    /// Parks the calling harness thread until `ready()` holds (a blocked
+    /// thread becomes eligible again only after another thread made progress).
+    pub fn block_here(&self, site: &str, ready: &dyn Fn() -> bool) {
+        if let Some(me) = my_tid() {
+            while !ready() {
+                self.yield_with(me, site, Status::Blocked { at: 0 });
+            }
         }
     }
 
